@@ -94,7 +94,7 @@ structure Obj where
   shared : Bool := false
   /-- ghost: transactions that were handed the object for writing and have not released it -/
   wown : List TxId := []
-  /-- ghost: scrapped by this transaction while it held the write lock (may hold partial state) -/
+  /-- ghost: the FIRST transaction that scrapped it while holding its write lock (it may hold partial state) -/
   dirty : Option TxId := none
   /-- ghost: its entry in `writtenCaches` was overwritten while the transaction held its write lock;
   `Commit` never unlocks it (it is unreachable: not in the map, in no `writtenCaches`) -/
@@ -303,7 +303,8 @@ def stepAt (s : St) (t : Tid) (c : Choice) : PC → St
     let th := s.thr t; let T := th.tx; let tx := s.txs T; let a := th.acc
     let ob := s.objs th.use
     ((s.setTx T { tx with failed := true }).setObj th.use
-      { ob with scrapped := true, dirty := if ob.writer = some T then some T else ob.dirty }).setThr t
+      { ob with scrapped := true,
+                dirty := if ob.dirty.isSome then ob.dirty else if ob.writer = some T then some T else none }).setThr t
       { th with pc := .fMgrLock }
   | .fMgrLock =>
     let th := s.thr t; let T := th.tx; let tx := s.txs T; let a := th.acc
@@ -357,7 +358,8 @@ def stepAt (s : St) (t : Tid) (c : Choice) : PC → St
     match aget tx.written a.name with
     | some old =>
       let ob := s.objs old
-      ((s.setObj old { ob with scrapped := true, writer := none, wown := ob.wown.erase T, dirty := some T,
+      ((s.setObj old { ob with scrapped := true, writer := none, wown := ob.wown.erase T,
+                               dirty := if ob.dirty.isSome then ob.dirty else some T,
                                dropped := if ob.dropped.isSome then ob.dropped else some T }).setTx T
         { tx with written := tx.written.filter (fun p => p.1 != a.name) }).setThr t { th with pc := .nRegister }
     | none => s.setThr t { th with pc := .nRegister }
@@ -423,7 +425,7 @@ def stepAt (s : St) (t : Tid) (c : Choice) : PC → St
       let s := if bad then { s with map := upd s.map n none } else s
       (s.setObj o { ob with writer := none, wown := ob.wown.erase T,
                             scrapped := ob.scrapped || bad,
-                            dirty := if bad then some T else ob.dirty }).setThr t
+                            dirty := if ob.dirty.isSome then ob.dirty else if bad then some T else none }).setThr t
         { th with remaining := th.remaining.eraseIdx k }
   | .cMgrUnlock =>
     let th := s.thr t; let T := th.tx; let tx := s.txs T; let a := th.acc
